@@ -45,6 +45,9 @@ CLAIMED = {
  "C10": ("decision tables over uninterpreted terms, receiver-state rules on failing paths, error-discipline dominance rule, literal constants vs oracle",
          "Decides the decision and term structure of the Edwards decoders and predicates: IsCanonicalVartime as a complete Boolean function of its byte tests against 'y < p and not an x=0 encoding with the sign bit set' (31-iteration scan fully unrolled, the two literal encodings checked by value); SetCompressedY fails exactly when the square-root flag is not 1, otherwise X = sqrt((y^2-1)/(d y^2+1)) conditionally negated by bit 255, Y, Z = 1, T = X*Y, and writes nothing to the receiver on failure; UnmarshalBinary (point and compressed point) errs exactly on a wrong length or a failed decode, resets the receiver to the identity before decoding and leaves exactly the identity after a failure; IsSmallOrder = IsIdentity(MulByCofactor), IsTorsionFree = IsIdentity(Mul by the group order), Equal is the conjunction of the two cross-products, MarshalBinary = compress; no failed check is followed by a success return in package curve. That SqrtRatioI and the field arithmetic compute the mathematical function is not decided.",
          "DESIGN.md §4 C10", "term structure is compared with the RFC 8032 decoding recipe transcribed in props/c10.go", ["edt", "elen", "econst"]),
+ "C12": ("decision tables and operation sequences over uninterpreted Merlin/Ristretto terms; error-discipline dominance rule",
+         "Decides the structure of sr25519 against the schnorrkel definition on all paths: signing builds proto-name \"Schnorr-sig\", sign:pk(pk), a witness from the transcript RNG re-keyed under \"signing\" with the nonce seed and finalised with the caller's rng, R = compress([r]B), sign:R(R), challenge sign:c over 64 bytes reduced wide, s = c*key + r, and errs exactly when the RNG construction or the witness draw fails; deriveVerifyChallengeScalar is the same challenge term over the signature's R; verification rejects exactly on a missing key, missing scalar or undecodable R and otherwise tests IsIdentity([c](-A) + [s]B - R) with those roles; signing contexts and byte/hash transcripts commit exactly the stated labels and the digest actually produced (a digest written into a too-small fixed buffer is modelled); Signature, SecretKey and KeyPair decoders accept exactly marker bit set, S minimal and canonical with bit 255 cleared, canonical key scalar, matching key pair and the stated lengths, leaving the stated state on success and on failure; marshalling sets the marker bit on every path; the batch verifier's entry admission equals single verification's, every path of doInit writes canBeValid (slots are reused), Add appends a freshly initialised entry and ORs anyInvalid, VerifyBatchOnly aborts exactly on an empty batch or anyInvalid. The delinearised batch equation and the underlying arithmetic are not decided.",
+         "DESIGN.md §4 C12", "Merlin operations are assumed not to modify their label/data arguments (merlinWrites table with reason; framing of the operations is C13)", ["edt", "elen"]),
 }
 
 PENDING_REASON = "check under construction (DESIGN.md section 7 build order); not claimed yet"
